@@ -56,6 +56,10 @@ HB = ("the hard-break backslash is appended after the segment has been wrapped t
 for k in ("doc/fill", "doc/semantic", "lww"):
     known("C05", f"{k}/width-bound:hard-break-backslash", HB if k == "doc/fill" else "same defect through " + k)
 
+known("C05", "doc/fill/maximal:adjacent-tags-counted-with-space",
+      "adjacent tags ('{% a %}{% b %}') get a temporary space for tokenizing that is removed after wrapping, but the greedy filler counted it: a line holding such a pair may end one column early per pair "
+      "('aa b {% c %}{% d %} k' + 'll' at width 24 breaks before 'll' although it fits). Cosmetic; not repaired (same mechanism as the C06 separated-tags finding).")
+
 # ---------------------------------------------------------------- known: C11
 known("C11", "place/break-justified:failed-merge-layout",
       "semantic mode lays the next sentence out as a continuation of a short last line (from column indent+len(last), without the joining space) and, when the merge test then fails, keeps that "
